@@ -46,6 +46,7 @@ def main(argv=None):
             if pid in ("C14", "C16", "C22"):
                 from . import selftest_finite as _sf
                 _sf.run(pid, res)
+            _st.run_stored(pid, res)
         code = res.finish()
         if a.replay:
             with open(a.replay) as f:
